@@ -20,7 +20,7 @@ BOUND = ("boundary-free hat basis on [0,1]^d, d<=3; data sets of 3..60 samples w
          "optimize_coefficients(_spatially_adaptive) options 1,2,3; (d) histories: 2..3 trainings (train or train_spatially_adaptive) on ONE object with "
          "different test shares {0.1,0.2,0.4,0.6} and regularisations, compared with a fresh object; default construction is attempted in every case, all other clauses use "
          "an operation constructed with rangee=(0.05,0.95) given as a tuple")
-BOUND += "; fault / magnitude additions: regularisation 1e-9 in the lambda set; residual also judged against lambda*|M alpha|"
+BOUND += "; four fixed uniform grids in 4 and 5 dimensions (matrix C, lambda 1e-3); fault / magnitude additions: regularisation 1e-9 in the lambda set; residual also judged against lambda*|M alpha|"
 RULE = BOUND + "; one case = one (data set, targets, regularisation, matrix, grid or training call); all cases non-trivial (>=1 basis function, >=1 training sample)"
 BUDGET = {"quick": 60.0, "thorough": 840.0}
 
@@ -518,6 +518,14 @@ def run(ctx):
                     "check_C": n <= (64 if quick else 120)}
             ctx.case(case)
             case_direct_uniform(ctx, case)
+    # dimensions 4 and 5 (the regression classes take any dimension): small level vectors with levels >= 2 in the slow-running dimensions, where grid
+    # neighbours lie far apart in the lexicographic numbering (missed seed C20_a: a band bound that is exact up to three dimensions)
+    for d, lv in ((4, (2, 2, 1, 1)), (4, (2, 2, 2, 2)), (4, (1, 2, 1, 2)), (5, (2, 1, 2, 1, 1))):
+        if quick and lv == (2, 2, 2, 2) and ctx.out_of_time(0.3):
+            continue
+        case = {"kind": "direct_uniform", "d": d, "lv": list(lv), "lam": 1e-3, "matrix": "C", "data": random_data_desc(rng), "check_C": True}
+        ctx.case(case)
+        case_direct_uniform(ctx, case)
     tsec["direct_uniform"] = time.time() - t0
     t0 = time.time()
     # ---- (a) direct, bisection-tree stripes
